@@ -235,6 +235,9 @@ func checkMain(args []string) int {
 	if prop == "C20" {
 		return checkC20(tier)
 	}
+	if prop == "C19" {
+		return checkChain(prop, tier, []extraPart{descriptorPart})
+	}
 	if prop == "C17" {
 		return checkChain(prop, tier, []extraPart{ksPart("C17")})
 	}
